@@ -118,6 +118,11 @@ module Nat =
                | O -> false
                | S m' -> leb n' m')
 
+  (** val ltb : nat -> nat -> bool **)
+
+  let ltb n0 m =
+    leb (S n0) m
+
   (** val min : nat -> nat -> nat **)
 
   let rec min n0 m =
@@ -635,6 +640,12 @@ module Z =
          Zneg (N.succ_pos (N.coq_lor (Pos.pred_N a0) (Pos.pred_N b0))))
  end
 
+(** val tl : 'a1 list -> 'a1 list **)
+
+let tl = function
+| [] -> []
+| _ :: m -> m
+
 (** val nth : nat -> 'a1 list -> 'a1 -> 'a1 **)
 
 let rec nth n0 l default =
@@ -710,10 +721,28 @@ let rec filter f = function
 let rec combine l l' =
   match l with
   | [] -> []
-  | x :: tl ->
+  | x :: tl0 ->
     (match l' with
      | [] -> []
-     | y :: tl' -> (x, y) :: (combine tl tl'))
+     | y :: tl' -> (x, y) :: (combine tl0 tl'))
+
+(** val firstn : nat -> 'a1 list -> 'a1 list **)
+
+let rec firstn n0 l =
+  match n0 with
+  | O -> []
+  | S n1 -> (match l with
+             | [] -> []
+             | a :: l0 -> a :: (firstn n1 l0))
+
+(** val skipn : nat -> 'a1 list -> 'a1 list **)
+
+let rec skipn n0 l =
+  match n0 with
+  | O -> l
+  | S n1 -> (match l with
+             | [] -> []
+             | _ :: l0 -> skipn n1 l0)
 
 (** val seq : nat -> nat -> nat list **)
 
@@ -1304,13 +1333,13 @@ let e_var v =
 
 (** val eval_part : z -> (z -> z) -> part -> z **)
 
-let eval_part w get p =
-  fold_left (fun pv v -> wmul w pv (get v)) (snd p) (fst p)
+let eval_part w get0 p =
+  fold_left (fun pv v -> wmul w pv (get0 v)) (snd p) (fst p)
 
 (** val eval : z -> expr -> (z -> z) -> z **)
 
-let eval w e get =
-  fold_left (fun val0 p -> wadd w val0 (eval_part w get p)) e Z0
+let eval w e get0 =
+  fold_left (fun val0 p -> wadd w val0 (eval_part w get0 p)) e Z0
 
 (** val e_add : z -> expr -> expr -> expr **)
 
@@ -2152,10 +2181,10 @@ let loc_eqb a b =
 
 let bc_binop w op s d a b =
   if loc_eqb d a
-  then let (vb, s1) = bc_read w s b in
-       let (va, s2) = bc_read w s1 a in bc_write s2 d (op va vb)
-  else let (va, s1) = bc_read w s a in
-       let (vb, s2) = bc_read w s1 b in bc_write s2 d (op va vb)
+  then let (vb0, s1) = bc_read w s b in
+       let (va0, s2) = bc_read w s1 a in bc_write s2 d (op va0 vb0)
+  else let (va0, s1) = bc_read w s a in
+       let (vb0, s2) = bc_read w s1 b in bc_write s2 d (op va0 vb0)
 
 (** val bc_scan : nat -> z -> z -> bcst -> bcst option **)
 
@@ -3007,3 +3036,223 @@ let rec ops_small ops pos =
      | TWrite (o, _) -> (&&) (small o) (ops_small rest pos)
      | TAcc (a, b) -> (&&) ((&&) (small a) (small b)) (ops_small rest pos)
      | TCheck o -> (&&) (small o) (ops_small rest pos))
+
+type elem = nat * z
+
+type svec =
+| SInline of elem list
+| SHeap of elem list
+
+(** val view : svec -> elem list **)
+
+let view = function
+| SInline l -> l
+| SHeap l -> l
+
+(** val is_heap : svec -> bool **)
+
+let is_heap = function
+| SInline _ -> false
+| SHeap _ -> true
+
+type sstate = { va : svec; vb : svec; next_id : nat; dropped : nat list }
+
+(** val sstate0 : sstate **)
+
+let sstate0 =
+  { va = (SInline []); vb = (SInline []); next_id = O; dropped = [] }
+
+(** val get : sstate -> bool -> svec **)
+
+let get s = function
+| true -> s.vb
+| false -> s.va
+
+(** val set : sstate -> bool -> svec -> sstate **)
+
+let set s r v =
+  if r
+  then { va = s.va; vb = v; next_id = s.next_id; dropped = s.dropped }
+  else { va = v; vb = s.vb; next_id = s.next_id; dropped = s.dropped }
+
+(** val drop_ids : sstate -> nat list -> sstate **)
+
+let drop_ids s ids0 =
+  { va = s.va; vb = s.vb; next_id = s.next_id; dropped =
+    (app s.dropped ids0) }
+
+(** val ids : elem list -> nat list **)
+
+let ids l =
+  map fst l
+
+(** val sv_push : nat -> svec -> elem -> svec **)
+
+let sv_push n0 v x =
+  match v with
+  | SInline l ->
+    if Nat.ltb (length l) n0
+    then SInline (app l (x :: []))
+    else SHeap (app l (x :: []))
+  | SHeap l -> SHeap (app l (x :: []))
+
+(** val sv_with_capacity : nat -> nat -> svec **)
+
+let sv_with_capacity n0 n1 =
+  if Nat.leb n1 n0 then SInline [] else SHeap []
+
+(** val retain_split : elem list -> bool list -> elem list * elem list **)
+
+let rec retain_split l keep =
+  match l with
+  | [] -> ([], [])
+  | x :: t0 ->
+    let k = match keep with
+            | [] -> true
+            | b :: _ -> b in
+    let (kept, rej) = retain_split t0 (tl keep) in
+    if k then ((x :: kept), rej) else (kept, (x :: rej))
+
+(** val dedup_split : z option -> elem list -> elem list * elem list **)
+
+let rec dedup_split prev = function
+| [] -> ([], [])
+| x :: t0 ->
+  let dup = match prev with
+            | Some p -> Z.eqb p (snd x)
+            | None -> false in
+  let (kept, rej) = dedup_split (Some (snd x)) t0 in
+  if dup then (kept, (x :: rej)) else ((x :: kept), rej)
+
+(** val with_view : svec -> elem list -> svec **)
+
+let with_view v l =
+  match v with
+  | SInline _ -> SInline l
+  | SHeap _ -> SHeap l
+
+(** val insert_elem : elem -> elem list -> elem list **)
+
+let rec insert_elem x l = match l with
+| [] -> x :: []
+| y :: t0 -> if Z.leb (snd x) (snd y) then x :: l else y :: (insert_elem x t0)
+
+(** val sort_elems : elem list -> elem list **)
+
+let sort_elems l =
+  fold_right insert_elem [] l
+
+(** val cmp_vals : elem list -> elem list -> comparison **)
+
+let rec cmp_vals a b =
+  match a with
+  | [] -> (match b with
+           | [] -> Eq
+           | _ :: _ -> Lt)
+  | x :: a' ->
+    (match b with
+     | [] -> Gt
+     | y :: b' ->
+       (match Z.compare (snd x) (snd y) with
+        | Eq -> cmp_vals a' b'
+        | x0 -> x0))
+
+(** val eq_vals : elem list -> elem list -> bool **)
+
+let eq_vals a b =
+  match cmp_vals a b with
+  | Eq -> true
+  | _ -> false
+
+(** val fresh : nat -> z list -> elem list **)
+
+let rec fresh next0 = function
+| [] -> []
+| v :: t0 -> (next0, v) :: (fresh (S next0) t0)
+
+type sop =
+| ONew of bool
+| OWithCap of bool * nat
+| OPush of bool * z
+| OExtend of bool * z list
+| OClear of bool
+| ORetain of bool * bool list
+| ODedup of bool
+| OClone of bool
+| OEq
+| OCmp
+| OSort of bool
+| OIntoIter of bool * nat
+| OIter of bool
+
+type sobs0 =
+| SView of elem list * bool
+| SBool of bool
+| SOrd of comparison
+| SItems of elem list
+
+(** val bump : sstate -> nat -> sstate **)
+
+let bump s n0 =
+  { va = s.va; vb = s.vb; next_id = (add s.next_id n0); dropped = s.dropped }
+
+(** val sv_step : nat -> sstate -> sop -> sstate * sobs0 **)
+
+let sv_step n0 s = function
+| ONew r ->
+  let s1 = drop_ids s (ids (view (get s r))) in
+  ((set s1 r (SInline [])), (SView ([], false)))
+| OWithCap (r, n1) ->
+  let s1 = drop_ids s (ids (view (get s r))) in
+  let v = sv_with_capacity n0 n1 in ((set s1 r v), (SView ([], (is_heap v))))
+| OPush (r, val0) ->
+  let v = sv_push n0 (get s r) (s.next_id, val0) in
+  ((bump (set s r v) (S O)), (SView ((view v), (is_heap v))))
+| OExtend (r, vals) ->
+  let v = fold_left (sv_push n0) (fresh s.next_id vals) (get s r) in
+  ((bump (set s r v) (length vals)), (SView ((view v), (is_heap v))))
+| OClear r ->
+  let v = get s r in
+  let s1 = drop_ids s (ids (view v)) in
+  let v' = with_view v [] in ((set s1 r v'), (SView ([], (is_heap v'))))
+| ORetain (r, keep) ->
+  let v = get s r in
+  let (kept, rej) = retain_split (view v) keep in
+  let v' = with_view v kept in
+  ((set (drop_ids s (ids rej)) r v'), (SView (kept, (is_heap v'))))
+| ODedup r ->
+  let v = get s r in
+  let (kept, rej) = dedup_split None (view v) in
+  let v' = with_view v kept in
+  ((set (drop_ids s (ids rej)) r v'), (SView (kept, (is_heap v'))))
+| OClone src ->
+  let l = view (get s src) in
+  let l' = fresh s.next_id (map snd l) in
+  let v' = if Nat.leb (length l) n0 then SInline l' else SHeap l' in
+  let s1 = drop_ids s (ids (view (get s (negb src)))) in
+  ((bump (set s1 (negb src) v') (length l)), (SView (l', (is_heap v'))))
+| OEq -> (s, (SBool (eq_vals (view s.va) (view s.vb))))
+| OCmp -> (s, (SOrd (cmp_vals (view s.va) (view s.vb))))
+| OSort r ->
+  let v = get s r in
+  let v' = with_view v (sort_elems (view v)) in
+  ((set s r v'), (SView ((view v'), (is_heap v'))))
+| OIntoIter (r, take) ->
+  let l = view (get s r) in
+  ((set (drop_ids s (app (ids (firstn take l)) (ids (skipn take l)))) r
+     (SInline [])), (SItems (firstn take l)))
+| OIter r -> (s, (SView ((view (get s r)), (is_heap (get s r)))))
+
+(** val sv_run : nat -> sop list -> sstate -> sobs0 list * sstate **)
+
+let rec sv_run n0 ops s =
+  match ops with
+  | [] -> ([], s)
+  | o :: rest ->
+    let (s', ob) = sv_step n0 s o in
+    let (obs, sf) = sv_run n0 rest s' in ((ob :: obs), sf)
+
+(** val sv_final : sstate -> nat list **)
+
+let sv_final s =
+  app s.dropped (app (ids (view s.va)) (ids (view s.vb)))
